@@ -141,6 +141,7 @@ var checks = []Check{
 			Harness{Fn: "ZZC14Event", Quick: p("KE", 40), Thorough: p("KE", 40), Expect: []string{"ev-stopped", "ev-done", "witness:end"}},
 		)},
 		Assumptions: []string{
+			"ZZC14Gen: generated programs with functions (gen2) stopped at a symbolic yield number up to KG, or never; the reference interpreter gives the uninterrupted trace and the number of calls",
 			"ZZC14Density: 7 loop / recursion kinds x 5 body kinds (comment only, blank lines and comment, statement, call, nested block with a comment): n+d iterations give at least d more yields than n; four long loops with comment-only bodies in ZZC14Stop",
 			"the platform is a recording stub; its yielder raises Evaluator.Stopped at a symbolic yield number k in [1,K]",
 			"program family: endless while, numeric/array/string/map ranges, recursion, endless mutual recursion, tests before an endless loop, nested loops with break",
